@@ -249,7 +249,7 @@ func runProps(r *core.Run) {
 	r.Set("prop_scenarios_enumerated", len(scens))
 	// chain without a cache shares nothing between the transforms: not a scenario
 	var pick []propScen
-	want := r.Pick(400, 6000)
+	want := r.Pick(400, 3000)
 	r.Rand.Shuffle(len(scens), func(i, j int) { scens[i], scens[j] = scens[j], scens[i] })
 	for _, s := range scens {
 		if s.Layout == "chain" && s.Cache == "nil" {
